@@ -334,6 +334,37 @@ fn main() {
         sink.merge(si);
     }
 
+    // (J) what follows a record is another record: every kind of small record (each content type, characteristic payloads)
+    //     followed by every kind, the follower complete / cut inside its header / cut inside its payload; the framers
+    //     answer for the first record only
+    {
+        let mut kinds: Vec<Vec<u8>> = Vec::new();
+        for ty in [0x14u8, 0x15, 0x16, 0x17, 0x18, 0x19, 0x00, 0xff] {
+            for p in [&[][..], &[0x01][..], &[0x01, 0x00][..], &[0x00, 0x00, 0x00, 0x00][..], &[0x0e, 0, 0, 0, 0x0e, 0, 0, 0][..], &[0x02, 0x28][..], &[0x01, 0x00, 0x01, 0xaa, 0, 0][..]] {
+                for ver in [0x0303u16, 0x0301] {
+                    let mut r = vec![ty, (ver >> 8) as u8, ver as u8, 0, p.len() as u8];
+                    r.extend_from_slice(p);
+                    kinds.push(r);
+                }
+            }
+        }
+        let nk = kinds.len();
+        let sj = par_run(run.threads, nk, |a, sink| {
+            for b in 0..nk {
+                let mut buf = kinds[a].clone();
+                buf.extend_from_slice(&kinds[b]);
+                let l = kinds[a].len();
+                for e in [buf.len(), l + 5, l + 4, l + 1, (l + 6).min(buf.len())] {
+                    for t in [&PLAINTEXT, &ENCRYPTED, &RAW_RECORD] {
+                        one(t, &buf[..e], sink);
+                    }
+                }
+            }
+        });
+        sink.merge(sj);
+        sink.bump("record-pair inputs", (nk * nk) as u64);
+    }
+
     // (F) the cap does not depend on the version: all 65536 versions x lengths around the cap
     let sf = par_run(run.threads, 256, |k, sink| {
         let mut buf = vec![0u8; 5 + 64];
@@ -423,7 +454,7 @@ fn main() {
     let mut cov = Map::new();
     cov.insert("exhaustive".into(), json!(true));
     cov.insert("rule".into(), json!(format!(
-        "(A) all 256 content types x all 65536 declared lengths (quick tier: 12 types with all lengths, the other 244 types with ~800 boundary lengths) at cut points {{0..6, 5+len/2, 5+len-1, 5+len, 5+len+1, 5+len+7}} for parse_tls_encrypted / parse_tls_raw_record; the same for parse_tls_plaintext on 8 content types (complete records only at 76 boundary lengths); (B) every prefix of records of the boundary lengths (middle of long records every 97th byte in quick); (C) all 65536 versions; (D) complete records whose payload is every string of length <= {} over a per-type positional alphabet; (D') each of those payloads also as the available part of a longer record (1, 4 and 300 bytes missing); (H) truncated records beginning with a whole first message of each of the 256 handshake / heartbeat / alert type bytes x 5 body sizes x 3 patterns followed by a second message, 4 missing-byte counts; (I) records whose payload is every prefix length (dense to 700 [2200], around 2^14 and the cap, sparse between) of 25 long message streams, complete / with trailing bytes / one byte short; (G) SSLv2-compatible ClientHellos (5 versions x 6 cipher-spec lengths x 2 session-id lengths x 3 challenge lengths) and the openings of 10 other protocols, at 45 cut points each; (F) all 65536 versions x 9 declared lengths around the cap x 2 types (truncated buffers); (E) records of 8 lengths x 4 types followed by trailing data such that the buffer size crosses 2^16, 2^17 and 2^20 (+-6 bytes, with and without the record length). Oracle: reference framing (Incomplete iff strict prefix with exact Needed, TooLarge above 2^14+256, exact consumption, header fields, payload and remainder by position) plus the strict record walker. Non-trivial: everything but inputs cut inside the 5-byte header", maxn)));
+        "(A) all 256 content types x all 65536 declared lengths (quick tier: 12 types with all lengths, the other 244 types with ~800 boundary lengths) at cut points {{0..6, 5+len/2, 5+len-1, 5+len, 5+len+1, 5+len+7}} for parse_tls_encrypted / parse_tls_raw_record; the same for parse_tls_plaintext on 8 content types (complete records only at 76 boundary lengths); (B) every prefix of records of the boundary lengths (middle of long records every 97th byte in quick); (C) all 65536 versions; (D) complete records whose payload is every string of length <= {} over a per-type positional alphabet; (D') each of those payloads also as the available part of a longer record (1, 4 and 300 bytes missing); (H) truncated records beginning with a whole first message of each of the 256 handshake / heartbeat / alert type bytes x 5 body sizes x 3 patterns followed by a second message, 4 missing-byte counts; (I) records whose payload is every prefix length (dense to 700 [2200], around 2^14 and the cap, sparse between) of 25 long message streams, complete / with trailing bytes / one byte short; (J) every ordered pair of 112 small records (8 content types x 7 payloads x 2 versions), the second complete / cut in its header / cut in its payload; (G) SSLv2-compatible ClientHellos (5 versions x 6 cipher-spec lengths x 2 session-id lengths x 3 challenge lengths) and the openings of 10 other protocols, at 45 cut points each; (F) all 65536 versions x 9 declared lengths around the cap x 2 types (truncated buffers); (E) records of 8 lengths x 4 types followed by trailing data such that the buffer size crosses 2^16, 2^17 and 2^20 (+-6 bytes, with and without the record length). Oracle: reference framing (Incomplete iff strict prefix with exact Needed, TooLarge above 2^14+256, exact consumption, header fields, payload and remainder by position) plus the strict record walker. Non-trivial: everything but inputs cut inside the 5-byte header", maxn)));
     // the same check against the crate built with all cargo features (std, serialize, unstable)
     let mut sink = sink;
     if run.tier == Tier::Thorough {
